@@ -268,10 +268,9 @@ def run(ctx, rep, cases=None):
         raise
     for c, r, m in zip(cases, results, replies):
         nontrivial = (c.get("n", 0) >= 2) or (c.get("nB", 0) >= 2 and c.get("nT", 0) >= 2) or (c["kind"] == "fold" and len(c["x"]) >= 2)
-        rep.case(c, nontrivial, sample=dict(case=c, implementation=r.get("text", r.get("value")), model=m))
+        rep.case(c, nontrivial, sample=dict(case=c, implementation=r.get("text", r.get("value")), model=m), kind=c["kind"] + c.get("layout", ""))
         judge(rep, c, r, m)
     rep.hist["box"] = f"points n<={ctx.scale(7,12)}; deeponet sizes<={ctx.scale(6,9)}"
-    rep.samples = rep.samples[:2] + [s for s in rep.samples[2:] if s["case"]["kind"] != "pts"][:4]
 
 
 def replay(ctx, obj):
